@@ -41,6 +41,9 @@ pub struct Case {
     pub fault: Option<IterFault>,
     /// build through RegexBuilder::backtrack_limit(k) instead of Regex::new
     pub builder: Option<usize>,
+    /// build through RegexBuilder::case_insensitive(true): the iterator and every search it is
+    /// compared with go through the same regex, so the flag only has to reach all of them
+    pub ci: bool,
     /// also apply the position-independence oracle
     pub shift: bool,
 }
@@ -53,6 +56,7 @@ impl Case {
             "text": self.text,
             "fault": self.fault.as_ref().map(|f| json!([f.j, f.kind, f.val])),
             "builder": self.builder,
+            "ci": self.ci,
             "shift": self.shift,
         })
     }
@@ -69,21 +73,31 @@ impl Case {
                 _ => None,
             },
             builder: v["builder"].as_u64().map(|x| x as usize),
+            ci: v["ci"].as_bool().unwrap_or(false),
             shift: v["shift"].as_bool().unwrap_or(false),
         })
     }
     /// the regex with `\\G` replaced by `(?!)`, when the pattern has a `\\G`
     pub fn build_nog(&self) -> Option<Regex> {
         let p = without_continue_g(&self.pattern)?;
-        Case { pattern: p, text: String::new(), fault: None, builder: self.builder, shift: false }.build()
+        Case { pattern: p, text: String::new(), fault: None, builder: self.builder, ci: self.ci, shift: false }.build()
     }
     pub fn build(&self) -> Option<Regex> {
-        match self.builder {
-            None => compile(&self.pattern),
-            Some(k) => std::panic::catch_unwind(|| RegexBuilder::new(&self.pattern).backtrack_limit(k).build())
-                .ok()
-                .and_then(|r| r.ok()),
+        if self.builder.is_none() && !self.ci {
+            return compile(&self.pattern);
         }
+        std::panic::catch_unwind(|| {
+            let mut b = RegexBuilder::new(&self.pattern);
+            if self.ci {
+                b.case_insensitive(true);
+            }
+            if let Some(k) = self.builder {
+                b.backtrack_limit(k);
+            }
+            b.build()
+        })
+        .ok()
+        .and_then(|r| r.ok())
     }
 }
 
@@ -796,7 +810,7 @@ pub fn check_case(case: &Case, st: &mut Stats) -> Option<Found> {
     let re = case.build()?;
     let nog = case.build_nog();
     let ff = real_history(&re, &case.text, &None);
-    let shift = if case.shift && case.builder.is_none() { Some(case.pattern.as_str()) } else { None };
+    let shift = if case.shift && case.builder.is_none() && !case.ci { Some(case.pattern.as_str()) } else { None };
     if case.fault.is_none() {
         return check_one_shifted(&re, nog.as_ref(), shift, &case.text, &None, None, st);
     }
@@ -808,7 +822,7 @@ pub fn replay(case: &Value) -> Option<(String, String)> {
         return replay_interleaved(case);
     }
     if case["kind"].as_str() == Some("c08-consumption") {
-        let c = Case { pattern: case["pattern"].as_str()?.to_string(), text: case["text"].as_str()?.to_string(), fault: None, builder: case["builder"].as_u64().map(|x| x as usize), shift: false };
+        let c = Case { pattern: case["pattern"].as_str()?.to_string(), text: case["text"].as_str()?.to_string(), fault: None, builder: case["builder"].as_u64().map(|x| x as usize), ci: case["ci"].as_bool().unwrap_or(false), shift: false };
         let re = c.build()?;
         let full = real_history(&re, &c.text, &None).items;
         return consumption_check(&re, &c.text, &full, case["taken"].as_u64()? as usize, case["j"].as_u64()? as usize).map(|f| (f.class, f.detail));
@@ -912,7 +926,7 @@ fn interleaved(re: &Regex, texts: &[String], order: &[usize]) -> Option<Found> {
 fn replay_interleaved(case: &Value) -> Option<(String, String)> {
     let pattern = case["pattern"].as_str()?;
     let builder = case["builder"].as_u64().map(|x| x as usize);
-    let c = Case { pattern: pattern.to_string(), text: String::new(), fault: None, builder, shift: false };
+    let c = Case { pattern: pattern.to_string(), text: String::new(), fault: None, builder, ci: case["ci"].as_bool().unwrap_or(false), shift: false };
     let re = c.build()?;
     let texts: Vec<String> = case["texts"].as_array()?.iter().map(|t| t.as_str().unwrap_or("").to_string()).collect();
     let order: Vec<usize> = case["order"].as_array()?.iter().map(|t| t.as_u64().unwrap_or(0) as usize).collect();
@@ -966,8 +980,11 @@ fn job(seed: u64, i: u64, keepout_listed: bool) -> (JobOut, Option<Violation>) {
         };
         let builder = if rng.chance(1, 10) { Some(*rng.pick(&[0usize, 1, 2, 3, 5, 10])) } else { None };
         // the position-independence oracle costs a regex compilation per search: sampled
-        let shift = builder.is_none() && (keepout_in_look || rng.chance(1, 12));
-        let mut case = Case { pattern: pattern.clone(), text: String::new(), fault: None, builder, shift };
+        // the builder's other option: now and then the whole case runs on a regex built
+        // case-insensitively (texts carry a few upper-case letters for it to matter)
+        let ci = rng.chance(1, 10);
+        let shift = builder.is_none() && !ci && (keepout_in_look || rng.chance(1, 12));
+        let mut case = Case { pattern: pattern.clone(), text: String::new(), fault: None, builder, ci, shift };
         let Some(re) = case.build() else { continue };
         let nog = case.build_nog();
         if builder.is_some() {
@@ -990,7 +1007,7 @@ fn job(seed: u64, i: u64, keepout_listed: bool) -> (JobOut, Option<Violation>) {
                 let j = rng.below(3);
                 out.st.consumption_checks += 1;
                 if let Some(f) = consumption_check(&re, &case.text, &ff.items, taken, j) {
-                    let replay = json!({"kind": "c08-consumption", "pattern": pattern, "builder": builder, "text": case.text, "taken": taken, "j": j});
+                    let replay = json!({"kind": "c08-consumption", "pattern": pattern, "builder": builder, "ci": ci, "text": case.text, "taken": taken, "j": j});
                     return (out, Some(Violation::new(PROP, &f.class, f.detail, replay)));
                 }
             }
@@ -1058,7 +1075,7 @@ fn job(seed: u64, i: u64, keepout_listed: bool) -> (JobOut, Option<Violation>) {
             let order: Vec<usize> = (0..steps).map(|_| rng.below(n)).collect();
             out.st.interleaved += 1;
             if let Some(f) = interleaved(&re, &texts, &order) {
-                let replay = json!({"kind": "c08-interleaved", "pattern": pattern, "builder": builder, "texts": texts, "order": order});
+                let replay = json!({"kind": "c08-interleaved", "pattern": pattern, "builder": builder, "ci": ci, "texts": texts, "order": order});
                 return (out, Some(Violation::new(PROP, &f.class, f.detail, replay)));
             }
         }
@@ -1106,7 +1123,7 @@ pub fn digest(seed: u64, n: u64, workers: usize) -> Vec<u64> {
 /// that is not listed.
 fn known_witnesses(known: &[KnownFinding], lines: &mut Vec<String>) -> Result<(), Violation> {
     for (p, t) in KEEPOUT_WITNESSES {
-        let case = Case { pattern: p.to_string(), text: t.to_string(), fault: None, builder: None, shift: false };
+        let case = Case { pattern: p.to_string(), text: t.to_string(), fault: None, builder: None, ci: false, shift: false };
         let mut st = Stats::default();
         if let Some(f) = check_case(&case, &mut st) {
             let listed = is_keepout_signature(&f.class).then(|| is_known(known, PROP, KNOWN_KEY_KEEPOUT)).flatten();
